@@ -225,6 +225,9 @@ class _Chunking(Client):
         self.acc, self.loop = acc, elem_loop
         self.problems: List[Tuple[int, str]] = []
         self.yields = 0
+        # a tuple of lists (one per input sequence) is always truthy itself: only its components tell whether it is empty
+        self._tuple_acc = any(isinstance(n, ast.Subscript) and isinstance(n.value, ast.Name) and n.value.id == acc
+                              for n in ast.walk(elem_loop))
 
     def should_inline(self, func, call, ctx):
         return False
@@ -238,6 +241,12 @@ class _Chunking(Client):
 
     def refine(self, test, state, ctx):
         a, app = state
+        if isinstance(test, ast.UnaryOp) and isinstance(test.op, ast.Not):
+            t_, f_ = self.refine(test.operand, state, ctx)
+            return f_, t_
+        # truthiness of the accumulator (`if batch:`; for the tuple-of-lists variant `if batch[0]:`): non-empty
+        if self._is_acc(test) and not (isinstance(test, ast.Name) and self._tuple_acc):
+            return {"E": ((), (state,)), "N": ((state,), ()), "Y": ((state,), (state,))}[a]
         if isinstance(test, ast.Compare) and len(test.ops) == 1 and isinstance(test.left, ast.Call) \
                 and src(test.left.func) == "len" and test.left.args and self._is_acc(test.left.args[0]) \
                 and const_value(test.comparators[0], None) == 0:
@@ -438,7 +447,7 @@ def _check_result_tuple(res, flow: Flow, work_get_pred, functor_pred) -> Tuple[b
 
     if not from_work_item(tag, 0):
         return False, f"the first component `{src(tag)}` is not the unmodified first component of the item taken from the work queue"
-    v = vals
+    v = flow.expand(vals) if isinstance(vals, ast.Name) else vals      # processed = [f(x) for x in items]; res = (i, processed)
     if isinstance(v, ast.Call) and src(v.func) == "list" and len(v.args) == 1 and isinstance(v.args[0], ast.Call) \
             and src(v.args[0].func) == "map" and len(v.args[0].args) == 2:
         fn, seq = v.args[0].args
